@@ -470,8 +470,65 @@ def r20_4(chk: Check):
     chk.floor("R20.4", 21)
 
 
+def r20_5(chk: Check) -> None:
+    """what the thermal integrals return where no defining integral is evaluated: beyond the ends of the shipped tables, and in the "direct" objects"""
+    S = chk.src
+    # (a) beyond the tabulated range a value is returned (constant continuation / direct evaluation / error), never the cubic continuation of the
+    #     last spline interval: that one grows like a polynomial where J is exponentially small
+    nsites = 0
+    for m in S.modules.values():
+        if not m.name.startswith("PotentialTools"):
+            continue
+        for fi in m.funcs.values():
+            for c in calls_in(fi.node, "setExtrapolationType"):
+                recv = c.func.value if isinstance(c.func, ast.Attribute) else None
+                if recv is None or not (n(recv).endswith(".Jb") or n(recv).endswith(".Jf")):
+                    continue
+                nsites += 1
+                chk.touch(fi.name)
+                lo, up = kwarg(c, "extrapolationTypeLower", 0), kwarg(c, "extrapolationTypeUpper", 1)
+                cx = Ctx(S, fi)
+                names = []
+                for a in (lo, up):
+                    a = cx.resolve(a) if a is not None else None
+                    names.append(a.attr if isinstance(a, ast.Attribute) and n(a.value).endswith("EExtrapolationType") else None)
+                ok = all(x in ("CONSTANT", "NONE", "ERROR") for x in names)
+                chk.ob("R20.5", fi.where(c), f"{n(recv)}: outside the tabulated range the integral is continued by a value (CONSTANT), evaluated directly (NONE) "
+                       "or refused (ERROR) on both sides -- never by extrapolating the spline (FUNCTION): J must stay Boltzmann-suppressed for heavy particles",
+                       ok, f"lower {names[0]}, upper {names[1]}", key=f"beyond-range|{fi.qual}|{n(recv).split('.')[-1]}")
+    if nsites < 2:
+        raise AnchorMissing("PotentialTools: the setExtrapolationType calls on the default Jb / Jf not found")
+    # (b) the objects used for *direct* evaluation never switch to a self-built spline: they are constructed with adaptive interpolation off
+    #     (the class default is on: after 500 evaluations the values would come from an interpolation over whatever was evaluated so far)
+    init = S.cls("interpolatableFunction:InterpolatableFunction").methods.get("__init__")
+    default_on = True
+    if init is not None:
+        a = init.node.args
+        names_ = [x.arg for x in a.args]
+        dfl = dict(zip(names_[len(names_) - len(a.defaults):], a.defaults))
+        d = dfl.get("bUseAdaptiveInterpolation")
+        default_on = not (d is not None and eqx(d, "False"))
+    ncons = 0
+    for m in S.modules.values():
+        if not m.name.startswith("PotentialTools"):
+            continue
+        for fi in m.funcs.values():
+            for c in own_nodes(fi.node):
+                if isinstance(c, ast.Call) and isinstance(c.func, ast.Name) and c.func.id in ("JbIntegral", "JfIntegral"):
+                    ncons += 1
+                    a = kwarg(c, "bUseAdaptiveInterpolation", 0)
+                    ok = (a is not None and eqx(a, "False", Ctx(S, fi))) or (a is None and not default_on)
+                    chk.ob("R20.5", fi.where(c), f"{c.func.id}(...) is constructed with adaptive interpolation switched off: a directly evaluated integral "
+                           "returns the defining integral for every call history", ok,
+                           "not passed (the class default is True)" if a is None else n(a), key=f"direct|{fi.qual}|{c.func.id}")
+    if ncons < 2:
+        raise AnchorMissing("PotentialTools: the constructions of JbIntegral / JfIntegral not found")
+    chk.floor("R20.5", 4)
+
+
 def rules(chk: Check) -> None:
     r20_1(chk)
+    r20_5(chk)
     r20_2(chk)
     r20_3(chk)
     r20_4(chk)
